@@ -17,10 +17,11 @@ import types
 from harness.core import enc_str, dec_str
 
 PROPERTY = "C10"
-READY = False
+READY = True
 STATEFUL = True
 PARALLEL = False
-THEOREMS = []
+THEOREMS = ["C10.cfg_ok", "C10.key_by_object", "C10.reachable_inv", "C10.layout_indep", "C10.history_free",
+            "C10.same_description_same_output", "C10.nocolor_no_esc", "C10.strip_eq", "C10.lines_eq_whole"]
 
 ESC = "\x1b"
 
@@ -447,27 +448,41 @@ def _err(e):
 # block out again to the next object of the same size, the harness only makes sure that this next object
 # is a palette of the same class and not some string).  Nothing here touches the package: configurations
 # are instances of a ColorsConfig subclass whose cache accessors tell the harness when a palette is about
-# to be created / has been created, fillers are bare instances of a Palette subclass.
+# to be created / has been created, fillers are bytes objects of the size of a palette object.
 _PINNED = []          # fillers that keep uninteresting free blocks occupied (kept over the whole run)
 _HELD = {}            # palette class -> fillers sitting on addresses of dead palettes of that class
 _ADDR_CLASS = {}      # address -> class of the (coloured) palette that was created there in this case
-_FILLER = None
 _SPY = None
-_FIRST_BLOCK = 0x50   # offset of the first object of a 16 KiB pymalloc pool (pool header 48 + GC and dict pre-headers 32)
+_OFF = None           # id(palette) - address of its memory block (GC head + dict pre-header), calibrated
+_POOL_FIRST = 48      # offset of the first block of a 16 KiB pymalloc pool
 
 
-def _filler_class():
-    global _FILLER
-    if _FILLER is None:
+def _filler():
+    """a 48-byte object that the garbage collector does not track: the size class of a palette object"""
+    return bytes(15)
+
+
+def _calibrate():
+    global _OFF
+    if _OFF is None:
         from ak.color import Palette
 
-        class _Filler(Palette):
+        class _Probe(Palette):
             pass
-        _FILLER = _Filler
-    return _FILLER
+        votes = {}
+        for _ in range(9):
+            o = object.__new__(_Probe)
+            a = id(o)
+            o = None
+            b = _filler()
+            votes[a - id(b)] = votes.get(a - id(b), 0) + 1
+            _PINNED.append(b)
+        best = max(votes, key=votes.get)
+        _OFF = best if votes[best] >= 5 and 0 <= best <= 64 else -1
+    return _OFF
 
 
-def _about_to_create(cls, new=object.__new__):
+def _about_to_create(cls):
     """a palette of class `cls` is going to be allocated: make the address of a dead palette of the same class
     the next free block, and the only free block of the partially used pools (so that temporaries created
     on the way cannot shuffle it away: they go to a fresh pool)"""
@@ -475,14 +490,16 @@ def _about_to_create(cls, new=object.__new__):
     if not held:
         return
     want = set(id(f) for f in held)
+    keep = f = None
+    n = 0
     held.clear()
-    filler = _filler_class()
-    keep = None
-    for _ in range(60000):
-        f = new(filler)
+    # (no `for ... in range`: a range object and its iterator are palette-sized and would take the blocks)
+    while n < 20000:
+        n += 1
+        f = bytes(15)
         if keep is None and id(f) in want:
             keep = f
-        elif keep is not None and (id(f) & 0x3FFF) == _FIRST_BLOCK:
+        elif keep is not None and (id(f) & 0x3FFF) == _POOL_FIRST:
             break                   # first block of an empty pool: everything before it is occupied now
         else:
             _PINNED.append(f)
@@ -511,22 +528,48 @@ def _spy_conf_class():
     return _SPY
 
 
-def _burst(cls, new=object.__new__):
-    """immediately after a rendering, before anything else allocates: occupy the palette-sized blocks that
-    the rendering has just released"""
-    return [new(cls), new(cls), new(cls), new(cls), new(cls), new(cls), new(cls), new(cls),
-            new(cls), new(cls), new(cls), new(cls), new(cls), new(cls), new(cls), new(cls),
-            new(cls), new(cls), new(cls), new(cls), new(cls), new(cls), new(cls), new(cls)]
+def _live_palette_ids(confs):
+    """ids of the palettes that are still referenced (configuration caches, sub-palettes, per-class caches)"""
+    import ak.color as color
+    todo = [c._PALETTE_NO_COLOR for _, c in _classes() if c._PALETTE_NO_COLOR is not None]
+    todo += list(color._GSYNCED_PALETTES.values())
+    for c in list(confs.values()) + [color._GLOBAL_COLORS_CONF]:
+        if c is not None:
+            todo += list(c._cache.values())
+    seen = set()
+    while todo:
+        p = todo.pop()
+        if id(p) not in seen:
+            seen.add(id(p))
+            todo += list(getattr(p, "_sub_palettes", {}).values())
+    return seen
 
 
-def _sort_out(fillers):
-    """fillers that landed on the address of a dead palette are held for the next palette of that class"""
-    for f in fillers:
-        cls = _ADDR_CLASS.get(id(f))
-        if cls is not None:
-            _HELD.setdefault(cls, []).append(f)
+def _capture(confs):
+    """right after an operation that released palettes: occupy the addresses of the dead palettes of this
+    case (each address gets one chance), holding them for the next palette of the same class"""
+    if not _ADDR_CLASS or _calibrate() < 0:
+        return
+    live = _live_palette_ids(confs)
+    held = set(id(f) + _OFF for lst in _HELD.values() for f in lst)
+    want = set(a - _OFF for a in _ADDR_CLASS if a not in live and a not in held)
+    if not want:
+        return
+    # a fresh process has many free blocks of this size in front of the interesting ones
+    n, limit = 0, (700 if len(_PINNED) > 40000 else 12000)
+    while n < limit:
+        n += 1
+        f = bytes(15)
+        if id(f) in want:
+            _HELD.setdefault(_ADDR_CLASS[id(f) + _OFF], []).append(f)
+            want.discard(id(f))
+            if not want:
+                break
         else:
             _PINNED.append(f)
+    f = None
+    for a in want:            # taken by something else meanwhile
+        del _ADDR_CLASS[a + _OFF]
 
 
 def _flat_descr(conf):
@@ -539,7 +582,7 @@ def _replay(case, before=None, after=None):
     import ak.color as color
     _reset()
     confs, enums, objs = {}, {}, {}
-    filler, spy = _filler_class(), _spy_conf_class()
+    spy = _spy_conf_class()
     failed = set()        # configurations whose constructor raised: what refers to them is skipped
     out = []
     for i, op in enumerate(case["ops"]):
@@ -555,12 +598,12 @@ def _replay(case, before=None, after=None):
             elif op[0] == "drop":
                 del confs[op[1]]
                 gc.collect()
-                _sort_out(_burst(filler))
+                _capture(confs)
                 out.append("ok")
             elif op[0] == "setglobal":
                 color.set_global_colors_config(confs[op[1]])
                 gc.collect()
-                _sort_out(_burst(filler))
+                _capture(confs)
                 out.append("ok")
             elif op[0] == "enum":
                 enums[op[1]] = _mk_enum(case["enums"][op[1]])
@@ -570,7 +613,7 @@ def _replay(case, before=None, after=None):
                 for o in [o for o, ob in objs.items() if op[1] in ob.spec.get("types", {}).values()]:
                     del objs[o]
                 gc.collect()
-                _sort_out(_burst(filler))
+                _capture(confs)
                 out.append("ok")
             elif op[0] == "render":
                 _, o, k, mode = op
@@ -581,9 +624,7 @@ def _replay(case, before=None, after=None):
                 if before is not None:
                     before(i, cur)
                 rep = objs[o].observe(conf, mode)
-                fillers = _burst(filler)
-                _sort_out(fillers)
-                fillers = None
+                _capture(confs)
                 out.append(rep)
                 if after is not None:
                     after(i, cur)
